@@ -18,13 +18,17 @@ RULE = ("2-4-d fields with distinct integer data, anisotropic counts and dyadic 
         "g(R+Q(p-R)) = Q f(p) with the exact integer matrix for every cell centre, validity and subregions moved with the cells, n/units "
         "swap for odd k, names kept, k == k mod 4, four turns and k then -k are the identity, k1 then k2 == k1+k2, region/mesh/field "
         "consistent, in-place == copy, unmapped vector fields refused unchanged. Model (np.rot90 index map + exact component rotation) "
-        "compared on every returned object. non-trivial = k mod 4 != 0 and at least two cells along one rotated axis")
+        "compared on every returned object, values EXACTLY for every storage kind (int / float32 / float64 / complex with zero imaginary part; dtype kept); k also "
+        "1002, -1001, 10^6+1, -(10^6)-3; the model's constructor mkFld? builds every field (field_ctor) and refuses the malformed-constructor stream (labels of wrong "
+        "length / repeated, mapping keys that are not the labels, arrays of wrong shape). non-trivial = k mod 4 != 0 and at least two cells along one rotated axis")
 TRUSTED = ["harness/c12.py, harness/tcommon.py + driver JSON glue", "np.rot90 modelled by its flip/transpose definition"]
-ASSUMPTIONS = ["float cos/sin(k*pi/2) within 2^-50 of the exact integers (2^-36 relative bound on values, 2^-40 on corners)"]
+ASSUMPTIONS = ["corners: ref + M_k (p - ref) with the exact integer matrix of k quarter turns in model and (since repo fix d6b0640f) code; the two roundings per coordinate of the subtraction/addition of the reference point are bridged by a 2^-40 relative bound; VALUES are compared exactly"]
 UNPROVED = ["periodic direction turned onto an axis with a multi-character name: the code leaves bc unchanged (open finding D57); the theorems state the exact condition - both axis names single characters (periodic_directions_turn) - and the failure otherwise (rotBc leaves bc alone for every k: periodic_direction_lost_multichar, d57_witness); nothing is proved about what bc 'should' become there",
-            "in-place Mesh.rotate90 assigns bc through the bc setter (str.lower + check), the model assigns the swapped string directly: equal for well-formed bc (BcWf: bc lower-case and checked, single-character dimension names lower-case) by rotBc_lowercase / rotBc_keeps_bcOk; meshes whose single-character dimension names are upper-case are outside every bc theorem (there the real in-place call raises after having turned region, subregions and n - reported witness)",
-            "fields after k then l vs k+l are proved equal on mesh, labels, mapping, unit and entry by entry on every index of the shape (field_compose, field_compose_values); equality of the arrays as total functions outside the shape is not claimed, and four successive quarter turns of a FIELD are not stated as one theorem (they follow from rotate_mod4 + field_compose + field_turn_zero only up to that in-range equality)",
-            "the value invariant FldVInv (len(value) = nvdim = len(vdims), mapping keys unique) is a hypothesis of field_inverse_values / field_compose_values, proved preserved by every step (value_invariant_kept) but established for freshly constructed fields by the constructor only on the real code (observed), not in the model; Fld.rDim takes the first pair mapping onto an axis, Python's reversed dict the last - equal unless two components map to the same axis (never generated)"]
+            "in-place Mesh.rotate90 assigns bc through the bc setter (str.lower + check): the value model assigns the swapped string directly, the STORE model (Model/C13Store.lean) goes through the setter, and DFV.C13.inplace_mesh_step_in_store proves the two equal for well-formed bc (BcWf: bc lower-case and checked, single-character dimension names lower-case); meshes whose single-character dimension names are upper-case are outside every bc theorem (since repo fix be43fa9b the code leaves bc alone there, like rotBc)",
+            "fields after k then l vs k+l, after k then -k and after four quarter turns (field_compose, field_compose_values, field_inverse_complete, field_four_turns - now ONE theorem with acceptance of all four calls) are proved equal on mesh, labels, mapping, unit and entry by entry on every index of the shape; equality of the arrays as total functions outside the shape is not claimed",
+            "the value invariant FldVInv is now ESTABLISHED by the model of the constructor (mkFld?: array check, valid setter, vdims setter, vdim_mapping setter in the code's order; constructor_establishes_invariants, constructed_field_turns; tied to Field.__init__ by the field_ctor correspondence incl. malformed labels / mappings / arrays) - not modelled there: dtype and norm arguments, the hasattr test of the vdims setter (labels colliding with attribute names of Field), values given as scalars / callables / dicts (C02), numpy broadcasting of arrays that do not already have shape (*n, nvdim)",
+            "storage kinds: the model's values are rationals; integer / float32 / float64 storage is covered by the closure theorem (field_rotation_closed: any set of numbers closed under negation is preserved, field_rotation_keeps_integers) and by EXACT comparison of every value with the code (dtype kept); outside the model: complex values with non-zero imaginary part, and UNSIGNED-integer or Boolean storage of a turned VECTOR field, which cannot represent the negated component (uint8 (3,3) -> (253,3) for k=1; OverflowError for k=2,3 - an observation, such storage is not generated)",
+            "non-injective component-to-axis mappings: the component turned for an axis is the LAST label mapped onto it (turned_label_is_last; Fld.rDim follows _r_dim_mapping); labels sharing an axis with a later label are carried along unchanged - nothing is proved about whether that is what a user of such a mapping wants"]
 BUDGET = {"quick": 90, "thorough": 900}
 
 
@@ -38,8 +42,22 @@ def cases(rng, tier):
         ref = None if rng.random() < 0.4 else [float(Fraction(rng.randint(-64, 64), 4)) for _ in range(nd)]
         if ref is not None and rng.random() < 0.1:
             ref = [0.0] * nd
-        yield dict(obj=spec, ax1=a1, ax2=a2, k=rng.randint(-6, 6), ref=ref, k2=rng.randint(-5, 5),
+        kk = rng.randint(-6, 6)
+        if rng.random() < 0.05:
+            kk = rng.choice([1002, -1001, 10 ** 6 + 1, -(10 ** 6) - 3])      # many whole turns (finding D131, fixed d6b0640f)
+        yield dict(obj=spec, ax1=a1, ax2=a2, k=kk, ref=ref, k2=rng.randint(-5, 5),
                    form=rng.choice(["list", "tuple", "ndarray", "intlist"]))
+    # the constructor itself (round 3: the model builds the field, `field_ctor`): malformed labels / mappings / arrays
+    # must be refused by Field.__init__ and by the model's mkFld? alike; well-formed ones are compared in every case above
+    for k in range(60 if tier == "quick" else 400):
+        spec = tc.gen_object_spec(rng, "field", ndim=rng.choice([2, 3]))
+        bad = rng.choice(["vdims_len", "vdims_dup", "vmap_key", "vmap_missing", "rowlen", "shape"])
+        nv = spec["nvdim"]
+        if bad in ("vdims_dup", "vmap_key", "vmap_missing") and (nv < 2 or not spec.get("vmap")):
+            bad = "rowlen"
+        dims = tc.dims_of(spec)
+        a1, a2 = rng.sample(dims, 2)
+        yield dict(obj=spec, ax1=a1, ax2=a2, k=1, ref=None, k2=1, ctorbad=bad)
     # exhaustive over ordered pairs x k on one 3-d vector field with permuted mapping
     base = tc.gen_object_spec(random.Random(7), "field", ndim=3)
     base["nvdim"] = 3
@@ -51,6 +69,54 @@ def cases(rng, tier):
     for a1, a2 in itertools.permutations(d, 2):
         for k in range(-5, 6):
             yield dict(obj=base, ax1=a1, ax2=a2, k=k, ref=None, k2=1, _exh=True)
+
+
+def ctor_args(spec, bad=None):
+    """the arguments Field.__init__ is called with (as tcommon.build_object builds them), optionally made malformed"""
+    nv = spec["nvdim"]
+    n = list(spec["mesh"]["n"])
+    ncell = int(np.prod(n))
+    rows = [[float(x) * 2.0 ** spec.get("vexp", 0) for x in spec["data"][c * nv:(c + 1) * nv]] for c in range(ncell)]
+    shape = list(n)
+    labels = spec.get("vdims") or (None if nv == 1 else (["x", "y", "z"][:nv] if nv <= 3 else [f"v{i}" for i in range(nv)]))
+    vdims = spec.get("vdims")
+    vmap = spec.get("vmap")
+    vmap = None if vmap is None else [list(e) for e in vmap]
+    if bad == "vdims_len":
+        vdims = list(labels or ["s"]) + ["extra"]
+    elif bad == "vdims_dup":
+        vdims = [labels[0]] * nv
+    elif bad == "vmap_key":
+        vmap[0][0] = "zz"
+    elif bad == "vmap_missing":
+        vmap = vmap[1:] if len(vmap) > 1 else [["zz", vmap[0][1]]]
+    elif bad == "rowlen":
+        rows = [r + [0.0] for r in rows]
+    elif bad == "shape":
+        shape[0] += 1
+        rows = rows + rows[:int(np.prod(shape)) - ncell]
+    return dict(nvdim=nv, shape=shape, rows=rows, valid=list(spec["valid"]), vdims=vdims, vmap=vmap, unit=spec.get("unit"))
+
+
+def build_field(spec, bad=None):
+    if bad is None:
+        return tc.build_object(spec)
+    mesh = tc.build_object(dict(spec, kind="mesh"))
+    a = ctor_args(spec, bad)
+    arr = np.array(a["rows"], dtype=float).reshape((*a["shape"], len(a["rows"][0])))
+    kw = {}
+    if a["vdims"]:
+        kw["vdims"] = a["vdims"]
+    if a["vmap"] is not None:
+        kw["vdim_mapping"] = {k: v for k, v in a["vmap"]}
+    return df.Field(mesh, nvdim=a["nvdim"], value=arr, valid=np.array(a["valid"], dtype=bool).reshape(tuple(mesh.n)),
+                    unit=a["unit"], **kw)
+
+
+def ctor_request(mesh_json, spec, bad=None):
+    a = ctor_args(spec, bad)
+    return dict(op="field_ctor", mesh=mesh_json, nvdim=a["nvdim"], shape=a["shape"], data=[Qs(r) for r in a["rows"]],
+                vshape=list(spec["mesh"]["n"]), valid=a["valid"], vdims=(a["vdims"] or None), vmap=a["vmap"], unit=a["unit"])
 
 
 def qmat(k):
@@ -68,7 +134,21 @@ def rot_point(p, R, i1, i2, k):
 def run_impl(case):
     obs = {"oracle": [], "tags": []}
     fail = obs["oracle"].append
+    bad = case.get("ctorbad")
+    if bad:
+        obs["tags"] += ["ctor:" + bad]
+        obs["mesh0"] = tc.to_json(tc.build_object(dict(case["obj"], kind="mesh")))
+        try:
+            build_field(case["obj"], bad)
+            obs["ctor"] = "ok"
+            fail(f"Field.__init__ accepted malformed arguments ({bad})")
+        except Exception:
+            obs["ctor"] = "err"
+        obs["nontrivial"] = True
+        return obs
     f = tc.build_object(case["obj"])
+    obs["ctor"] = "ok"
+    obs["mesh0"] = tc.to_json(f.mesh)
     a1, a2, k, ref = case["ax1"], case["ax2"], case["k"], case["ref"]
     ref_arg = tc._as_form(ref, case.get("form", "list"))          # the same point as list / tuple / ndarray / ints
     dims = list(f.mesh.region.dims)
@@ -114,6 +194,9 @@ def run_impl(case):
         if not same_state(tc.snap(g), tc.snap(twin)):
             fail("in-place rotate90 differs from the copying form")
     obs["res"] = tc.to_json(g)
+    if g.array.dtype != f.array.dtype or (st2 == "ok" and twin.array.dtype != f.array.dtype):
+        fail(f"rotate90 changed the storage type of the values: {f.array.dtype} -> {g.array.dtype} (copy) / "
+             f"{twin.array.dtype if st2 == 'ok' else '-'} (in place)")
     tc.check_inv(g, fail, "rotated field")
     # ---- geometry + values: g(R + Q(p - R)) = Q f(p) at every cell centre
     R = [Fraction(x) for x in ref] if ref is not None else [Fraction(float(a)) / 2 + Fraction(float(b)) / 2 for a, b in zip(f.mesh.region.pmin, f.mesh.region.pmax)]
@@ -213,21 +296,47 @@ def run_impl(case):
 
 
 def model_requests(case, obs):
-    if "start" not in obs:
+    if "mesh0" not in obs:
         return []
-    op = dict(t="rotate90", ax1=case["ax1"], ax2=case["ax2"], k=case["k"], ref=case["ref"], inplace=False)
-    return [dict(op="field_history", field=obs["start"], ops=[tc.op_json(op)])]
+    reqs = [ctor_request(obs["mesh0"], case["obj"], case.get("ctorbad"))]
+    if "start" in obs:
+        op = dict(t="rotate90", ax1=case["ax1"], ax2=case["ax2"], k=case["k"], ref=case["ref"], inplace=False)
+        reqs.append(dict(op="field_history", field=obs["start"], ops=[tc.op_json(op)]))
+    return reqs
+
+
+def exact_data(name, a, b, dis):
+    """values as exact rationals (the component rotation multiplies by 0, 1, -1 only: integer, single-precision and
+    double storage alike come out exactly, since repo fix 1656fb93)"""
+    if len(a) != len(b):
+        dis.append(f"{name}: cell count impl {len(a)} vs model {len(b)}")
+        return
+    for k, (ra, rb) in enumerate(zip(a, b)):
+        if len(ra) != len(rb) or any(F(x) != F(y) for x, y in zip(ra, rb)):
+            dis.append(f"{name}: value at flat cell {k}: impl {ra} vs model {rb} (exact comparison)")
+            return
 
 
 def compare(case, obs, rs):
     dis = []
     if not rs:
         return dis
-    mr = rs[0][0]
+    cr = rs[0]
+    if (obs["ctor"] == "ok") != ("ok" in cr):
+        dis.append(f"Field.__init__ ({case.get('ctorbad') or 'well-formed'}): impl {obs['ctor']} vs model {'ok' if 'ok' in cr else cr}")
+        return dis
+    if obs["ctor"] == "ok" and "start" in obs:
+        # the field the model's constructor builds is the field the real constructor built
+        cmp_json("Field.__init__ result", obs["start"], cr["ok"], dis)
+        exact_data("Field.__init__ result", obs["start"]["data"], cr["ok"]["data"], dis)
+    if len(rs) < 2 or dis:
+        return dis
+    mr = rs[1][0]
     if (obs["st"] == "ok") != ("ok" in mr):
         dis.append(f"rotate90: impl {obs['st']} vs model {'ok' if 'ok' in mr else mr}")
     elif obs["st"] == "ok" and "res" in obs:
         cmp_json("rotate90 result", obs["res"], mr["ok"]["ret"], dis)
+        exact_data("rotate90 result", obs["res"]["data"], mr["ok"]["ret"]["data"], dis)
     return dis
 
 
